@@ -12,6 +12,7 @@ import (
 	"net"
 	"sort"
 	"strconv"
+	"strings"
 	"sync"
 	"time"
 
@@ -306,7 +307,15 @@ func callHandler(h handler.Handler6, wire []byte) (inner *dhcpv6.Message, objAns
 	if !ok {
 		return nil, nil, nil, true, nil
 	}
-	res, stop := h(req, stub)
+	var res dhcpv6.DHCPv6
+	var stop bool
+	returned, pan := core.Call(20*time.Second, func() { res, stop = h(req, stub) })
+	if pan != nil {
+		panic(pan)
+	}
+	if !returned {
+		return innerMsg, nil, nil, false, core.Violate("C08/wedged", "the handler did not return within 20 s for a message with %d IA_PD (a lock is held forever)", len(innerMsg.Options.IAPD()))
+	}
 	if res == nil {
 		return innerMsg, nil, nil, false, core.Violate("C08/no-answer", "handler returned nil (stop=%v) for a message with a client id and %d IA_PD", stop, len(innerMsg.Options.IAPD()))
 	}
@@ -431,6 +440,9 @@ func Exec(c Case) (res core.Result) {
 			if c.Mode == "C08" || c.Mode == "C09" {
 				res.Viol = core.Violate(c.Mode+"/panic", "handler panicked: %v", r)
 			}
+		}
+		if res.Viol != nil && strings.HasSuffix(res.Viol.Signature, "/wedged") {
+			res.Viol.Signature = c.Mode + "/wedged" // no answer at all breaks either property
 		}
 		if res.Viol != nil && len(res.Viol.Signature) >= 3 && res.Viol.Signature[:3] != c.Mode {
 			res = core.Result{Classes: []string{"abandoned:" + res.Viol.Signature[:3]}}
